@@ -372,19 +372,19 @@ func fmtFamily(env *Env) error {
 // =====================================================================================================
 
 type parseCase struct {
-	Fmt    string `json:"fmt"` // fasta | fastaseq | phylip | phylipmulti | nexus | clustal | stockholm | partition
-	Strict bool   `json:"strict"`
-	Pol    int    `json:"pol"`
-	Alpha  int    `json:"alpha"`
-	Plen   int    `json:"plen"`
-	Bytes  []int  `json:"bytes"`
+	Fmt    string  `json:"fmt"` // fasta | fastaseq | phylip | phylipmulti | nexus | clustal | stockholm | partition
+	Strict bool    `json:"strict"`
+	Pol    int     `json:"pol"`
+	Alpha  int     `json:"alpha"`
+	Plen   int     `json:"plen"`
+	Bytes  []int   `json:"bytes"`
 	Decl   [][]int `json:"decl"` // when the generator knows it: the (sequences, length) of every alignment of the stream
 }
 type parseOut struct {
-	Rows []Row `json:"rows"`
-	Al   int   `json:"al"`
-	Len  int   `json:"len"`
-	Nb   int   `json:"nb"`
+	Rows []Row  `json:"rows"`
+	Al   int    `json:"al"`
+	Len  int    `json:"len"`
+	Nb   int    `json:"nb"`
 	Kind string `json:"k"` // align | bag
 }
 type parseEvent struct {
